@@ -446,12 +446,7 @@ def history_case(rng, cls, length):
 
 class Lane(LaneBase):
     PROP = 'C04'
-    THEOREMS = ['CG.C04.coherent_iff_coh', 'CG.C04.coherent_init', 'CG.C04.coherent_reader', 'CG.C04.coherent_mutator',
-                'CG.C04.script_closed', 'CG.C04.coherent_run', 'CG.C04.reader_eq_fresh',
-                'CG.C04.cached_readers_eq_fresh', 'CG.C04.mutC_graph', 'CG.C04.mutC_graph_single',
-                'CG.C04.runCalls_graph', 'CG.C04.Table.writers_covered', 'CG.C04.Table.cached_subset_cleared',
-                'CG.C04.Table.no_reader_in_mutator', 'CG.C04.Table.modelled_fields_cleared',
-                'CG.C04.stepM_eq_step_wf', 'CG.C04.runCalls_graph_run']
+    THEOREMS = 'auto'
     AUDIT = 'CG/Audit/C04.lean'
     RULE = ('query -> mutate -> query interleavings on both classes: every public mutator entry point (18 plain, 20 '
             'time-series) in the middle position, aimed at a returning instance, a raising one and one that raises after a '
